@@ -172,6 +172,7 @@ VX_NOINLINE void impl_vec_fn(Buffers<typename V::scalar>& B, unsigned off) {
 template<class S>
 struct RunnerS {
     Buffers<S> B;
+    S ta[VX_BLK], tb[VX_BLK], tc[VX_BLK];  // staging for rotated packings
     OpVT<S> vt;
     Stat* st;
     volatile std::uint64_t cur;
@@ -240,21 +241,29 @@ struct RunnerS {
     void phase1(const DomainS<S>& d) {
         const unsigned W = vt.W;
         const std::uint64_t n = d.size();
-        for (std::uint64_t start = 0; start < n; start += VX_BLK) {
-            cur = start;
-            unsigned m = unsigned(n - start < VX_BLK ? n - start : VX_BLK);
-            d.fill(start, m, B.a, B.b, B.c);
-            unsigned padded = (m + W - 1) / W * W;
-            for (unsigned i = m; i < padded; ++i) { B.a[i] = B.a[m - 1]; B.b[i] = B.b[m - 1]; B.c[i] = B.c[m - 1]; }
-            vt.model_block(B, padded);
-            impl_block(padded);
-            compare_block(m, true, 0, "enumeration");
-            if (start == 0 && m > 0) {
-                unsigned pick[3] = {0, m / 2, m - 1};
-                for (unsigned k = 0; k < 3; ++k)
-                    if (B.dom[pick[k]]) add_sample(*st, witness_json(pick[k], "enumeration"));
+        // small domains are repeated with every rotation of the packing, so that every tuple is evaluated in every lane position
+        const std::uint64_t budget = opt().thorough ? (1ull << 28) : (1ull << 25);
+        const unsigned rots = (W > 1 && n * W <= budget) ? W : 1;
+        for (unsigned rot = 0; rot < rots; ++rot)
+            for (std::uint64_t start = 0; start < n; start += VX_BLK) {
+                cur = start;
+                unsigned m = unsigned(n - start < VX_BLK ? n - start : VX_BLK);
+                if (rot == 0) d.fill(start, m, B.a, B.b, B.c);
+                else {
+                    d.fill(start, m, ta, tb, tc);
+                    for (unsigned i = 0; i < m; ++i) { unsigned q = (i + m - rot % m) % m; B.a[q] = ta[i]; B.b[q] = tb[i]; B.c[q] = tc[i]; }
+                }
+                unsigned padded = (m + W - 1) / W * W;
+                for (unsigned i = m; i < padded; ++i) { B.a[i] = B.a[m - 1]; B.b[i] = B.b[m - 1]; B.c[i] = B.c[m - 1]; }
+                vt.model_block(B, padded);
+                impl_block(padded);
+                compare_block(m, rot == 0, rot ? hcomb(0x2071, rot) : 0, rot ? "enumeration (rotated packing)" : "enumeration");
+                if (rot == 0 && start == 0 && m > 0) {
+                    unsigned pick[3] = {0, m / 2, m - 1};
+                    for (unsigned k = 0; k < 3; ++k)
+                        if (B.dom[pick[k]]) add_sample(*st, witness_json(pick[k], "enumeration"));
+                }
             }
-        }
     }
 
     // every K-tuple in every lane position against every neighbour fill
